@@ -105,7 +105,10 @@ class KeyBuilder:
                 self.names.append(name)
             o = NamedId('k' + 'abcdefghij'[self.names.index(name) % 10] * (1 + self.names.index(name) // 10))
         elif kname == 'Expr':
-            o = zero()
+            # C15 extension: an expression that uses exactly the names the model's `uses(e, .)` table lists
+            used = [u for u in list(self.names) if self.table('uses', name, u, True) or self.table('uses', name, u, False)]
+            o = zero() if not used else (A.Var(self.key('NamedId', used[0]), None) if len(used) == 1 else
+                                         A.TupleExpr([A.Var(self.key('NamedId', u), None) for u in used], None))
         elif kname == 'StmtBlock':
             gen = [u for u in list(self.names) if self.table('gen_block', name, u)]
             if 'term_block' in self.ghost or 'gen_block' in self.ghost:
@@ -189,6 +192,8 @@ def build(v, env, ghost_fn):
             for u in v.get('universe', []):
                 _KB.key(v['$set'], u)
             return {_KB.key(v['$set'], k) for k in v['items']}
+        if '$kseq' in v and v.get('pairs'):      # zipseqs: tuple[tuple[str, K], ...]
+            return tuple((f'kw{i}', _KB.key(v['$kseq'], k)) for i, k in enumerate(v['items']))
         if '$kseq' in v:
             return tuple(_KB.key(v['$kseq'], k) for k in v['items'])
         if '$numstr' in v:
@@ -363,6 +368,8 @@ def replay_with(doc, ctx_standin, ghost_override=None, cand=None):
         from spec import c15_ref
         from fpy2.utils import NamedId
         speclib.GHOST.update(c15_ref.GHOSTS)
+        from spec import c15x_ref     # C15 extension: free uses of expressions, comprehension scoping
+        speclib.GHOST.update(c15x_ref.GHOSTS)
         speclib.KEY_UNIVERSE[:] = _KB.all_keys() + [NamedId('zz_unused_a'), NamedId('zz_unused_b')]
     if getattr(C, 'native_ghosts', None):
         # C07: ghosts read off the real analyses; forall_keys ranges over the nodes / definitions of the program
